@@ -201,11 +201,13 @@ pub struct Gen {
     pub cfg: GenCfg,
     pub rng: Rng,
     pub next_uid: u32,
+    /// the previous op was aimed to end exactly at the end of a WAL file: follow up with an fsync-type op
+    pub at_file_end: bool,
 }
 
 impl Gen {
     pub fn new(cfg: GenCfg, rng: Rng) -> Gen {
-        Gen { cfg, rng, next_uid: 1 }
+        Gen { cfg, rng, next_uid: 1, at_file_end: false }
     }
 
     fn uid(&mut self) -> u32 {
@@ -236,6 +238,17 @@ impl Gen {
             }
         }
         let idle: Vec<usize> = (0..cfg.idle_queues.min(nq)).collect();
+        // the write cursor sits exactly at the end of a file: half of the time persist, create or restart right there
+        if self.at_file_end {
+            self.at_file_end = false;
+            if d.cursor.map(|c| c.1 == FILE_BYTES).unwrap_or(false) && rng.chance(1, 2) {
+                return match rng.below(4) {
+                    0 | 1 => Op::Persist { fsync: rng.chance(3, 4) },
+                    2 if !missing.is_empty() => Op::Create { q: *rng.pick(&missing) },
+                    _ => Op::Restart { policy: None },
+                };
+            }
+        }
         let mut kind = rng.weighted(&cfg.w);
         if kind == 0 && missing.is_empty() {
             kind = 2;
@@ -279,11 +292,37 @@ impl Gen {
                 // alignment targeting on the first payload
                 if n >= 1 && rng.below(1000) < cfg.align_permille as u64 {
                     if let Some((_, off)) = d.cursor {
-                        let r = if rng.chance(3, 4) { rng.usize_below(17) } else { rng.usize_below(BLOCK) };
-                        let extra = *rng.pick(&[0usize, 0, 0, 1, 1, 2, 3]);
+                        let mut r = if rng.chance(3, 4) { rng.usize_below(17) } else { rng.usize_below(BLOCK) };
+                        let mut extra = *rng.pick(&[0usize, 0, 0, 1, 1, 2, 3]);
+                        if rng.chance(1, 5) {
+                            // end exactly on the last byte of the file (the cursor then equals the file size)
+                            r = 0;
+                            extra = 3 - (off % FILE_BYTES) / BLOCK.max(1) % 4;
+                            if off % FILE_BYTES == FILE_BYTES {
+                                extra = 3;
+                            }
+                            self.at_file_end = n == 1;
+                        }
                         if n == 1 {
                             if let Some(l) = aligned_len(off % FILE_BYTES, d.names[q].len(), r, extra) {
                                 lens[0] = l;
+                            }
+                        }
+                    }
+                }
+                // batches: make a frame boundary coincide with a record boundary (the first frame of the entry then
+                // ends exactly after a whole record; what a reader does with a lost or mis-typed frame shows there)
+                if n >= 2 && cfg.profile == Profile::Batches && rng.chance(2, 5) {
+                    if let Some((_, off)) = d.cursor {
+                        let in_block = off % BLOCK;
+                        let room = BLOCK - in_block;
+                        if room > 7 + 11 + d.names[q].len() + 12 {
+                            let cap = room - 7 - 11 - d.names[q].len();
+                            // records 0..=j fill the frame exactly
+                            let j = rng.usize_below(n - 1);
+                            let before: usize = lens[..j].iter().map(|&l| 12 + l as usize).sum();
+                            if before + 12 <= cap && cap - before - 12 <= 3 * BLOCK {
+                                lens[j] = (cap - before - 12) as u32;
                             }
                         }
                     }
